@@ -9,7 +9,7 @@ from vmm.ref import tbrref
 ID = 'C18'
 RULE = ('Hypothesis experiment frames with n_cool >= 1 and a cost column (both scenarios), default and post-analysis-colab '
         'layouts (assignment column, labels 2/1/-1, excluded geos, period -1 rows before/after, date gaps), metric in '
-        '{tbr_response, tbr_cost}, tails in {1,2}, level in [0.55,0.995] (one tail) / (0.02,0.995] (two tails). '
+        '{tbr_response, tbr_cost}, tails in {1,2}, level in [0.55,0.995] (one tail) / (0.02,0.995] (two tails); in half of the cases the model object was first fitted to a frame of the other cost scenario and queried. '
         'Non-trivial = n_pre >= 4 and >= 2 analysed days (first differences exist); distinct by spec hash.')
 BUDGET = {'quick': 800, 'thorough': 30000}
 FLOOR = {'quick': 300, 'thorough': 10000}
@@ -24,7 +24,8 @@ def _spec(draw):
     level = draw(st.sampled_from([0.9, 0.8, 0.95])) if draw(st.booleans()) else draw(st.floats(0.55, 0.995))
   else:
     level = draw(st.sampled_from([0.9, 0.8, 0.5])) if draw(st.booleans()) else draw(st.floats(0.02, 0.995, exclude_min=True))
-  return {'frame': fs, 'metric': draw(st.sampled_from(['tbr_response', 'tbr_cost'])), 'tails': tails, 'level': level}
+  return {'frame': fs, 'metric': draw(st.sampled_from(['tbr_response', 'tbr_cost'])), 'tails': tails, 'level': level,
+          'refit': draw(st.booleans())}
 
 
 def strategy(tier):
@@ -68,7 +69,21 @@ def run(spec):
   dates3 = [d for d, k in zip(truth['dates'], in3) if k]
   dates_an = [d for d, k in zip(truth['dates'], an) if k]
   try:
-    m = c07.fit_model(df, kwargs, True)
+    if spec.get('refit'):
+      other = dict(fs, cost=dict(fs['cost'], scenario='variable' if scen == 'fixed' else 'fixed'), n_pre=fs['n_pre'] + 1,
+                   factor=fs['factor'] + [2], noise=[e + [9] for e in fs['noise']])
+      other['cost']['cnoise'] = [e + [1] for e in fs['cost']['cnoise']]
+      df_o, kw_o, _ = frames.materialise(other)
+      m = c07.fit_model(df_o, kw_o, True)
+      try:
+        m.estimate_pointwise_and_cumulative_effect(metric=metric, level=0.8, tails=2)
+        m.summary(random_state=1, nsims=50)
+      except Exception:  # pylint: disable=broad-except
+        pass
+      m.fit(df, **kwargs)
+      cls.append('refit')
+    else:
+      m = c07.fit_model(df, kwargs, True)
     ts = m.estimate_pointwise_and_cumulative_effect(metric=metric, level=spec['level'], tails=spec['tails'])
   except Exception as e:  # pylint: disable=broad-except
     kind = core.crash_kind('C18', e)
